@@ -528,6 +528,7 @@ class Reporter(object):
 
     def __init__(self, prop):
         self.prop = prop
+        shutil.rmtree(os.path.join(VERIF, "replay", prop), ignore_errors=True)
         self.kf = load_known_findings(prop)
         self.kf_hits = {}
         self.violations = []
